@@ -42,16 +42,16 @@ func cleanup() {
 
 // run is the per-run state shared by the stream scenarios.
 type run struct {
-	prop   string
-	tape   *simrt.Tape
-	log    simrt.EventLog
-	viol   *simrt.Violation
-	others []*simrt.Violation
-	stats  map[string]int
-	infra  string
-	shape  string
-	rep    vegeta.Reporter // the reporter of the current history (report scenarios)
-	repHDR bool
+	prop    string
+	tape    *simrt.Tape
+	log     simrt.EventLog
+	viol    *simrt.Violation
+	others  []*simrt.Violation
+	stats   map[string]int
+	infra   string
+	shape   string
+	rep     vegeta.Reporter // the reporter of the current history (report scenarios)
+	repHDR  bool
 	arrival string // order in which the current history adds the results (report scenarios)
 	// the JSON rendering of the histogram returned last, and a copy of what it read then
 	heldJSON, heldJSONCopy []byte
